@@ -252,6 +252,21 @@ example : isWsdl facts03 "doc.kind=soap&n=1&doc.name=stock.wsdl".toList = false 
     isWsdl facts03 "wsdl&n=1".toList = false ∧ isWsdl facts03 "xwsdl=1".toList = false ∧
     isWsdl facts03 "WsDl".toList = true ∧ isWsdl facts03 "wsdl=&n=1".toList = true := by decide +kernel
 
+/-! ### result hand-over: body styles and declared text encodings -/
+
+/-- whatever `_body_style` the method declares (wrapped, bare, out_bare), the single primitive result is what HttpRpc
+    serializes: `return_exact` holds for all three -/
+theorem return_any_body_style (bs : BodyStyle) (ret : RetVal) : resultOf facts03 bs ret = .ok ret := by
+  cases bs <;> simp [resultOf, facts03]
+
+/-- a return type that declares its text encoding is sent in THAT encoding (`e`: its codec, any), exactly the text of the
+    value; a type that declares none is sent as UTF-8 (`return_exact`) -/
+theorem return_declared_encoding (e : Text → List Nat) (p : PK) (v : Leaf) (text : Text)
+    (ht : leafText facts03 p v = some text) :
+    retBodyEnc facts03 (some e) (.leaf p v) = e text ∧ retBodyEnc facts03 none (.leaf p v) = utf8Enc text := by
+  have hF : facts03.retEncDeclaredWins = true := by decide
+  simp only [retBodyEnc, ht, hF, if_true, and_self]
+
 /-! ### the mechanisms the notation rests on -/
 
 /-- `_s2cmi` + `list.insert`: elements with pairwise distinct sparse indexes, arriving in any
